@@ -1,1 +1,15 @@
 import RaftLogModel.Props.C14
+open RaftLog
+#print axioms c14_worker_terminates_measure
+#print axioms c14_fuel_bound
+#print axioms c14_fuel_sufficient
+#print axioms c14_todoOK_reachable
+#print axioms c14_todoOK_invariant
+#print axioms c14_worker_terminates
+#print axioms c14_worker_terminates_any
+#print axioms c14_drop_state
+#print axioms c14_after_drop_nothing_moves
+#print axioms c14_drop_quiesces
+#print axioms c14_drop_none
+#print axioms c14_drop_quiesces_reachable
+#print axioms c14_drop_quiesces_system
